@@ -10,5 +10,5 @@ CONSTANTS
  MaxCols = 1
  MaxCells = 0
 ACTION_CONSTRAINT Emit
-INVARIANTS RefWriterOK RefIdempotent
+INVARIANTS RefWriterOK
 CHECK_DEADLOCK FALSE
